@@ -116,6 +116,8 @@ class Exec:
         return so.check() != z3.unsat
 
     def oblige(self, name, pc, goal, kind='post', **info):
+        mark = info.pop('_mark', None)
+        if mark is not None and len(self.S.pending) > mark: pc = PC.of(pc) + self.S.pending[mark:]
         self.obls.append(Obligation(f'{self.cur_short}/{name}', PC.of(pc), goal, kind, info))
 
     def assume_note(self, s):
@@ -145,6 +147,21 @@ class Exec:
         return outs
 
     def stmt(self, st, p, fr):
+        mark = len(self.S.pending)
+        outs = self._stmt(st, p, fr)
+        new = self.S.pending[mark:]
+        if new:
+            seen = set()
+            for k, q, v in outs:
+                if id(q) in seen: continue
+                seen.add(id(q)); q.pc = q.pc + new
+        return outs
+
+    def flush(self, q, mark):
+        new = self.S.pending[mark:]
+        if new: q.pc = q.pc + new
+
+    def _stmt(self, st, p, fr):
         if isinstance(st, ast.Expr):
             if isinstance(st.value, ast.Constant): return [('fall', p, None)]
             return self._ev_stmt(st.value, p, fr, lambda q, v: [('fall', q, None)])
@@ -1053,6 +1070,7 @@ class Exec:
     # ------------------------------------------------------------------ calls
     def ev_call(self, e, p, fr):
         outs = []
+        mark = len(self.S.pending)
         if any(isinstance(a, ast.Starred) for a in e.args) or any(k.arg is None for k in e.keywords):
             raise Unsupported(f'star-args call at line {e.lineno}')
         for q, f in self.ev(e.func, p, fr):
@@ -1062,6 +1080,8 @@ class Exec:
                 for q2, kws in self.evmany([k.value for k in e.keywords], q1, fr):
                     if isinstance(kws, Raised): outs.append((q2, kws)); continue
                     kwargs = {k.arg: v for k, v in zip(e.keywords, kws)}
+                    if len(self.S.pending) > mark:
+                        q2 = q2.fork(); self.flush(q2, mark)      # facts about the argument values must be visible to the callee's pre-obligation
                     outs += self.call_function(f, args, kwargs, q2, e, fr)
         return outs
 
